@@ -18,9 +18,9 @@ META = {
             "with dns.zone.from_text / from_file / dns.zonefile.read_rrsets on dns.zone.Zone, dns.versioned.Zone and "
             "dns.btreezone.Zone (relativize on/off); the real Zone.to_styled_text / to_file / to_text output for each style "
             "is lexed back to abstract lines. Trace_ZoneFile requires every recorded line to be the reader action of the "
-            "model (same outcome, same content), every spelling to load to its zone, every writer output to be one the writer "
-            "specification allows and to denote the zone under the specification's reader, and the real re-read to give the "
-            "original zone with Zone == true.",
+            "model (same outcome, same content), every spelling to load to its zone, the real writer not to refuse any lossless style, and the real re-read of its output to give the "
+            "original zone (content and TTLs) with Zone == true. Conformance of the writer's text to the writer "
+            "specification (lexed back to abstract lines) is validated too, but only counted as drift in evidence.",
     "note": "Exhaustive inside the MC/Gen constants (4 owner names + $GENERATE names, 8 types, 2-7 rdatas per type, TTLs "
             "{5,300,600}, curated zones of 3-5 records + all single-record zones, 288 semantic style vectors x relativized/"
             "absolute; pairwise-exhaustive over all 11 knobs in quick, full 4608-vector product in thorough); random zones of "
@@ -130,8 +130,6 @@ def classify(tr, line, clause):
     if op == "reread" and clause == "RereadLoads" and st.get("generic") and not rel and exc == "SyntaxError" \
             and has_inzone_embedded(tr.get("zone", [])):
         return "F8:reader:generic-rdata-of-known-type-with-embedded-name"
-    if op == "write" and clause == "WriterConforms" and tr.get("api") == "text_style":
-        return "F21:Zone.to_text-ignores-style-argument"
     cfg = "%s/%s/%s/%s" % (tr.get("zclass"), "rel" if rel else "abs", tr.get("api"), tr.get("rapi", "-"))
     knobs = ",".join(k for k in sorted(st) if st[k] not in (False, "none", ["none"], "lf") and not (k == "sorted" and st[k])) if tr.get("kind") == "write" else ""
     lk = e.get("ln", {}).get("k", "") if op == "line" else ""
@@ -285,14 +283,25 @@ def run(ctx):
     ctx.drift = sum(1 for tr in traces for e in tr["ev"] if e.get("op") == "write" and e.get("nlok") is False)
     for tr in traces:
         tr.pop("text", None)
+    # writer-format conformance is SOFT: its own traces, rejections are drift (never a VIOLATION)
+    conf = []
+    for tr in traces:
+        if tr.get("kind") == "write":
+            for e in tr["ev"]:
+                if e.get("op") == "write" and e.get("res") != "err":
+                    conf.append({"tid": tr["tid"] + "#conf", "kind": "conf", "og": tr["og"], "rel": tr["rel"],
+                                 "zclass": tr["zclass"], "api": tr["api"], "zone": tr["zone"], "style": tr["style"],
+                                 "ev": [{"op": "wconf", "res": e["res"], "lines": e["lines"], "ncomments": e["ncomments"]}]})
+    soft = ctx.validate("Trace_ZoneFile", "Trace_ZoneFile.cfg", conf) if conf else []
+    fmt = {}
+    for tr, line, clause in soft:
+        key = "to_text(style=) ignores style" if tr.get("api") == "text_style" else clause
+        fmt[key] = fmt.get(key, 0) + 1
+    ctx.extra["writer_format_conformance"] = {"checked": len(conf), "mismatches": fmt or {"none": 0}}
+    ctx.drift += len(soft)
     rejects = ctx.validate("Trace_ZoneFile", "Trace_ZoneFile.cfg", traces)
     for tr, line, clause in rejects:
         sig = classify(tr, line, clause)
-        if sig.startswith("F21:"):
-            # Zone.to_text(style=...) drops its style argument; the text still round-trips, so no clause of the
-            # property is violated (lead's decision): observation only, counted in evidence
-            ctx.extra["to_text_ignores_style"] = ctx.extra.get("to_text_ignores_style", 0) + 1
-            continue
         e = tr["ev"][line - 1] if line else {}
         job = dict(jobmap.get(tr["tid"], {}))
         job.pop("work", None)
